@@ -170,4 +170,192 @@ theorem serverLoopH_spec (tk : Option (List (Bytes × Bytes))) (fuel : Nat) (s s
                   | nil => simp at l2
                   | cons y ys => simp [List.getLast?_append, l2]
 
+/-- user-pass = user ":" pass splits uniquely when user names contain no colon (RFC 7617) -/
+theorem colon_split (u u' p p' : Bytes) (h : u ++ COLON :: p = u' ++ COLON :: p') (hu : COLON ∉ u) (hu' : COLON ∉ u') :
+    u = u' ∧ p = p' := by
+  induction u generalizing u' with
+  | nil =>
+    cases u' with
+    | nil => simpa using h
+    | cons y ys =>
+      simp at h hu'
+      exact absurd h.1 hu'.1
+  | cons x xs ih =>
+    cases u' with
+    | nil =>
+      simp at h hu
+      exact absurd h.1.symm hu.1
+    | cons y ys =>
+      simp at h hu hu'
+      obtain ⟨e1, e2⟩ := h
+      obtain ⟨r1, r2⟩ := ih ys e2 hu.2 hu'.2
+      exact ⟨by rw [e1, r1], r2⟩
+
+theorem lookupToken_spec (enc : Bytes → Bytes) (henc : ∀ a b, enc a = enc b → a = b)
+    (users : List (Bytes × Bytes)) (hu : ∀ x ∈ users, COLON ∉ x.1) (u p : Bytes) (hcu : COLON ∉ u) :
+    lookupToken (tokenMap enc users) (enc (u ++ [COLON] ++ p)) = if (u, p) ∈ users then some u else none := by
+  unfold lookupToken
+  by_cases hm : (u, p) ∈ users
+  · simp only [hm, if_true]
+    have hex : ∃ e ∈ (tokenMap enc users).reverse, (e.1 == enc (u ++ [COLON] ++ p)) = true := by
+      refine ⟨(enc (u ++ [COLON] ++ p), u), ?_, by simp⟩
+      simp only [List.mem_reverse, tokenMap, List.mem_map]
+      exact ⟨(u, p), hm, rfl⟩
+    cases hf : (tokenMap enc users).reverse.find? (fun e => e.1 == enc (u ++ [COLON] ++ p)) with
+    | none =>
+      rw [List.find?_eq_none] at hf
+      obtain ⟨e, he, hp⟩ := hex
+      exact absurd hp (hf e he)
+    | some e =>
+      have h1 := List.find?_some hf
+      have h2 := List.mem_of_find?_eq_some hf
+      simp only [List.mem_reverse, tokenMap, List.mem_map] at h2
+      obtain ⟨⟨u2, p2⟩, hm2, he⟩ := h2
+      subst he
+      simp only [beq_iff_eq] at h1
+      have := henc _ _ h1
+      simp only [List.append_assoc, List.singleton_append] at this
+      obtain ⟨r1, _⟩ := colon_split u2 u p2 p this (hu _ hm2) hcu
+      simp [r1]
+  · simp only [hm, if_false]
+    have : (tokenMap enc users).reverse.find? (fun e => e.1 == enc (u ++ [COLON] ++ p)) = none := by
+      rw [List.find?_eq_none]
+      intro e he hp
+      simp only [List.mem_reverse, tokenMap, List.mem_map] at he
+      obtain ⟨⟨u2, p2⟩, hm2, he⟩ := he
+      subst he
+      simp only [beq_iff_eq] at hp
+      have := henc _ _ hp
+      simp only [List.append_assoc, List.singleton_append] at this
+      obtain ⟨r1, r2⟩ := colon_split u2 u p2 p this (hu _ hm2) hcu
+      subst r1 r2
+      exact hm hm2
+    rw [this]; rfl
+
+/-- the bytes of a head given its raw lines (each without the `\n`) -/
+def headBytes (raw : List Bytes) : Bytes := (raw.map (· ++ [LF])).flatten
+
+/-- raw lines of exactly one head: no line contains `\n`, every line but the last is non-blank, the last is blank
+(so the head is the shortest prefix of the stream that ends with a blank line) -/
+def IsHead (raw : List Bytes) : Prop :=
+  ∃ body last, raw = body ++ [last] ∧ (∀ l ∈ raw, LF ∉ l) ∧
+    (∀ l ∈ body, (stripCR l).isEmpty = false) ∧ (stripCR last).isEmpty = true
+
+theorem readLinesC_head (fuel : Nat) (buf : Bytes) (cs : Chunks) (ls : List Bytes) (buf' : Bytes) (cs' : Chunks)
+    (h : readLinesC fuel buf cs = .ok (ls, buf', cs')) :
+    ∃ raw, IsHead raw ∧ buf ++ cs.flatten = headBytes raw ++ (buf' ++ cs'.flatten) ∧
+      ls = raw.dropLast.map stripCR := by
+  induction fuel generalizing buf cs ls with
+  | zero => simp [readLinesC] at h
+  | succ fuel ih =>
+    unfold readLinesC at h
+    cases hr : readLineC buf cs with
+    | error e => simp [hr] at h
+    | ok p =>
+      obtain ⟨l, b1, c1⟩ := p
+      simp only [hr] at h
+      obtain ⟨e1, hnl⟩ := readLineC_spec _ _ _ _ _ hr
+      by_cases hb : (stripCR l).isEmpty = true
+      · simp [hb] at h
+        obtain ⟨h1, h2, h3⟩ := h
+        subst h1 h2 h3
+        refine ⟨[l], ⟨[], l, rfl, ?_, by simp, hb⟩, by rw [e1]; simp [headBytes], by simp⟩
+        intro x hx; simp at hx; subst hx; exact hnl
+      · simp only [hb] at h
+        cases hr2 : readLinesC fuel b1 c1 with
+        | error e => simp [hr2] at h
+        | ok q =>
+          obtain ⟨ls2, b2, c2⟩ := q
+          simp [hr2] at h
+          obtain ⟨h1, h2, h3⟩ := h
+          subst h1 h2 h3
+          obtain ⟨raw2, ⟨body2, last2, er, hn2, hb2, hl2⟩, e2, els⟩ := ih _ _ _ hr2
+          refine ⟨l :: raw2, ⟨l :: body2, last2, by rw [er]; simp, ?_, ?_, hl2⟩, ?_, ?_⟩
+          · intro x hx
+            simp at hx
+            rcases hx with hx | hx
+            · subst hx; exact hnl
+            · exact hn2 x hx
+          · intro x hx
+            simp at hx
+            rcases hx with hx | hx
+            · subst hx; simpa using hb
+            · exact hb2 x hx
+          · rw [e1, e2]; simp [headBytes]
+          · rw [els, er]; simp
+            have : stripCR l :: (List.map stripCR body2 ++ [stripCR last2])
+                = (stripCR l :: List.map stripCR body2) ++ [stripCR last2] := by simp
+            rw [this, List.dropLast_concat]
+
+theorem readHeadM_head (s s' : St) (ls : List Bytes) (h : readHeadM s = (.ok ls, s')) :
+    s'.out = s.out ∧ ∃ raw, IsHead raw ∧ s.stream = headBytes raw ++ s'.stream := by
+  unfold readHeadM at h
+  cases hr : readLinesC (s.buf.length + s.inp.flatten.length + 1) s.buf s.inp with
+  | error e => rw [hr] at h; simp at h
+  | ok p =>
+    obtain ⟨ls2, b, c⟩ := p
+    rw [hr] at h
+    simp only [Prod.mk.injEq, Except.ok.injEq] at h
+    obtain ⟨_, h2⟩ := h
+    subst h2
+    obtain ⟨raw, hh, e, _⟩ := readLinesC_head _ _ _ _ _ _ hr
+    exact ⟨rfl, raw, hh, e⟩
+
+/-- the request loop consumes exactly one head per request and answers every request but the last with 407 -/
+theorem serverLoopH_heads (tk : Option (List (Bytes × Bytes))) (fuel : Nat) (s s' : St) (r : Bytes × Head)
+    (h : serverLoopH tk fuel s = (.ok r, s')) :
+    ∃ heads : List (List Bytes), heads ≠ [] ∧ (∀ hd ∈ heads, IsHead hd) ∧
+      s.stream = (heads.map headBytes).flatten ++ s'.stream ∧
+      s'.out = s.out ++ (List.replicate (heads.length - 1) C07.status407).flatten := by
+  induction fuel generalizing s with
+  | zero => simp [serverLoopH] at h
+  | succ fuel ih =>
+    unfold serverLoopH at h
+    simp only [bind_def] at h
+    cases hr : readHeadM s with
+    | mk res s1 =>
+      cases res with
+      | error e => simp [hr] at h
+      | ok ls =>
+        obtain ⟨ho, raw, hraw, e1⟩ := readHeadM_head _ _ _ hr
+        simp only [hr, liftE_def] at h
+        cases hp : parseRequestHead ls with
+        | error e => simp [hp] at h
+        | ok hd =>
+          simp only [hp] at h
+          have one : ∀ s2, s2 = s1 → ∃ heads : List (List Bytes), heads ≠ [] ∧ (∀ hd ∈ heads, IsHead hd) ∧
+              s.stream = (heads.map headBytes).flatten ++ s2.stream ∧
+              s2.out = s.out ++ (List.replicate (heads.length - 1) C07.status407).flatten := by
+            intro s2 e; subst e
+            exact ⟨[raw], by simp, by simpa using hraw, by simpa using e1, by simp [ho]⟩
+          cases tk with
+          | none =>
+            simp at h
+            exact one _ h.2.symm
+          | some tk' =>
+            simp only [] at h
+            cases ha : basicAuth hd.headers tk' with
+            | some u =>
+              simp [ha] at h
+              exact one _ h.2.symm
+            | none =>
+              simp only [ha, bind_def, write_def] at h
+              by_cases hc : hd.close = true
+              · simp [hc] at h
+              · simp only [hc] at h
+                obtain ⟨heads2, hne, hall, e2, o2⟩ := ih _ h
+                refine ⟨raw :: heads2, by simp, ?_, ?_, ?_⟩
+                · intro x hx
+                  simp at hx
+                  rcases hx with hx | hx
+                  · subst hx; exact hraw
+                  · exact hall x hx
+                · rw [e1]
+                  have : (St.stream { inp := s1.inp, out := s1.out ++ C07.status407, buf := s1.buf }) = s1.stream := rfl
+                  rw [← this, e2]; simp
+                · rw [o2]
+                  cases heads2 with
+                  | nil => exact absurd rfl hne
+                  | cons y ys => simp [ho, List.replicate_succ]
+
 end SSV.HS
